@@ -11,6 +11,7 @@
      L                         files: sst=.. trash=..
      Q lo hi                   the specification list at the current state
      M                         memtables: id:store:iters:freed:len
+     A                         events so far accepted / rejected by Model.acc_ev
    Cursor observations print as the harness prints them: key@ts=value | key@ts=~ | .  and the
    model's own failures PANIC / ERR / FUEL; a machine error prints UAF / ENOENT / BAD. *)
 open Gen_snap
@@ -103,7 +104,13 @@ let big_fuel : nat = let rec go acc k = if k = 0 then acc else go (S acc) (k - 1
 let cfg = Stdlib.ref { cf_iter_owns = true; cf_holds_ver = true; cf_cache = false; cf_fuel = big_fuel }
 let st = Stdlib.ref (minit N0)
 
+(* how many events of the history the reachability theorem's acceptance predicate (Model.acc_ev:
+   batches without a repeated key, flush after the writers published, installs that are well formed
+   and invent nothing) accepts / rejects *)
+let accepted = Stdlib.ref 0
+let rejected = Stdlib.ref 0
 let ev (e : event) : outcome =
+  if acc_ev !st e then incr accepted else incr rejected;
   let (s', o) = mstep !cfg !st e in
   st := s'; o
 
@@ -167,6 +174,7 @@ let handle (line : string) : string =
       Printf.sprintf "L sst=%s trash=%s" (ids (fun d -> d.d_sst)) (ids (fun d -> d.d_trash))
   | "Q" :: lo :: hi :: _ ->
       "Q " ^ String.concat " " (List.map (fun e -> show_obs (Some e, None)) (scan_spec !st (parse_bound lo) (parse_bound hi)))
+  | "A" :: _ -> Printf.sprintf "A accepted=%d rejected=%d" !accepted !rejected
   | "M" :: _ ->
       "M " ^ String.concat " " (List.map (fun m ->
         Printf.sprintf "%d:%d:%d:%d:%d" (int_of_n m.mt_id) (int_of_nat m.mt_store) (int_of_nat m.mt_iters)
